@@ -29,7 +29,7 @@ def St.init : St := { cfg := cfgOf true, canSign := false, nextFresh := 2^63, a 
 def parseTs (tok : String) : Option Nat :=
   if tok.startsWith "r" then
     match (tok.drop 1).toString.toInt? with
-    | some d => some (Int.toNat ((nowSec : Int) + d))
+    | some d => some (Int.toNat (((nowSec : Int) + d) % 18446744073709551616))   -- uint64(now + d) wraps
     | none => none
   else if tok.startsWith "a" then (tok.drop 1).toString.toNat?
   else none
